@@ -218,7 +218,7 @@ var numVals = []string{"", "0", "1", "-1", "946684800", "946684860", "9466848000
 var stepVals = []string{"", "0", "1", "15", "0.1", "-5", "1m", "5s", "1h", "abc", "9999999999", "1e-9"}
 var limitVals = []string{"", "0", "1", "10", "100", "1000", "-1", "abc", "99999999999"}
 
-var promQueries = []string{`up`, `rate(http_requests_total{job="a"}[5m])`, `sum by (job) (rate(x[1m]))`, `x{a=~"b.*"} > 2`, `histogram_quantile(0.9, sum(rate(b_bucket[5m])) by (le))`, `{__name__=~".+"}`, `1+1`, `x offset 5m`, `avg_over_time(x[10m:1m])`, `label_replace(up, "a", "$1", "b", "(.*)")`}
+var promQueries = []string{`up`, `rate(http_requests_total{job="a"}[5m])`, `sum by (job) (rate(x[1m]))`, `x{a=~"b.*"} > 2`, `histogram_quantile(0.9, sum(rate(b_bucket[5m])) by (le))`, `{__name__=~".+"}`, `1+1`, `x offset 5m`, `avg_over_time(x[10m:1m])`, `label_replace(up, "a", "$1", "b", "(.*)")`, `time()`, `vector(1)`, `vector(time()) * 2`}
 var traceQLs = []string{`{}`, `{.a="b"}`, `{span.http.status=200 && resource.service.name="x"}`, `{.a=~"b.*" || name="op"}`, `{duration>1s} | count() > 2`, `{.a="b"} && {.c="d"}`, `{.a="b"} || {.c!="d"} | avg(duration) > 1ms`, `{.x > 5.5}`}
 var kinds = []string{"query_range", "query_range", "query_range", "query", "labels", "label_values", "series", "prom_range", "prom_instant", "prom_labels", "prom_label_values", "prom_series",
 	"trace", "trace_json", "search", "tags", "tags_v2", "tag_values", "tag_values_v2", "prof_types", "prof_label_names", "prof_label_values", "prof_select_series", "prof_merge", "prof_series", "prof_merge_profiles", "render_diff", "tail"}
@@ -276,7 +276,8 @@ func genReq(rt *rapid.T, l string, faulty bool) Req {
 	case strings.HasPrefix(r.Kind, "prom"):
 		r.Query = rapid.SampledFrom(promQueries).Draw(rt, l+".pq")
 		r.Start, r.End, r.Time = num("start", "946684800"), num("end", "946684860"), num("time", "946684860")
-		r.Step = "15"
+		// evaluation instants start + k*step, also below one second
+		r.Step = rapid.SampledFrom([]string{"15", "15", "1", "0.5", "0.25", "250ms"}).Draw(rt, l+".pstep")
 	case r.Kind == "search" || strings.HasPrefix(r.Kind, "tag"):
 		r.Query = rapid.SampledFrom(traceQLs).Draw(rt, l+".tq")
 		r.Start, r.End = num("start", "946684800"), num("end", "946684860")
